@@ -95,7 +95,8 @@ Definition z_to_str (z : Z) : str :=
 Inductive maxage :=
 | MaNone
 | MaInt (z : Z)                      (* an int number of seconds *)
-| MaDelta (days seconds : Z).        (* datetime.timedelta: .days, .seconds (microseconds are ignored) *)
+| MaDelta (days seconds : Z)         (* datetime.timedelta: .days, .seconds (microseconds are ignored) *)
+| MaBad.                             (* anything int() refuses with ValueError ('abc', '', '5.5', nan) *)
 
 Inductive cvalue :=
 | CNone                              (* value=None: delete the cookie *)
@@ -177,13 +178,23 @@ Definition mc_secs (r : request) : option Z :=
          | MaDelta d s => Some (d * 86400 + s)%Z
          | MaInt z => Some z
          | MaNone => None
+         | MaBad => None
          end
+  end.
+(* "max_age should be an integer": int(max_age) raises ValueError - unless the cookie is being deleted, where the
+   argument is not looked at *)
+Definition mc_bad_max_age (r : request) : bool :=
+  match r_value r, r_max_age r with
+  | CNone, _ => false
+  | _, MaBad => true
+  | _, _ => false
   end.
 Definition mc_expires (r : request) : option str :=
   match r_value r with
   | CNone => Some delete_expires
   | _ => match r_max_age r with
          | MaNone => None
+         | MaBad => None
          | _ => Some (r_date r)
          end
   end.
@@ -208,7 +219,8 @@ Definition mc_morsel (r : request) (vbytes : str) (ss : option str) : morsel :=
      m_samesite := ss |}.
 
 Definition make_cookie (validate : bool) (r : request) : res str :=
-  (* Morsel(name, value): both through bytes_(x, 'ascii'), then assert _valid_cookie_name(name) *)
+  if mc_bad_max_age r then Raise ValueError else
+  (* Morsel(name, value): both through bytes_(x, 'ascii'), then the _valid_cookie_name(name) check *)
   if negb (is_ascii (r_name r)) then Raise UnicodeEncodeError
   else
   match mc_value r with
